@@ -51,6 +51,40 @@ var totalFuncs = []struct{ name, rel, fn string }{
 	{"name.Decode", "name/name.go", "Decode"},
 	{"name.utf16Decode", "name/name.go", "utf16Decode"},
 	{"cff.readIndex", "cff/index.go", "readIndex"},
+	{"cff.readIndexAt", "cff/index.go", "readIndexAt"},
+	{"cff.decodeDict", "cff/dict.go", "decodeDict"},
+	{"cff.decodeFloat", "cff/dict.go", "decodeFloat"},
+	{"cff.readCharset", "cff/charset.go", "readCharset"},
+	{"cff.readEncoding", "cff/encoding.go", "readEncoding"},
+	{"cff.readFDSelect", "cff/fdselect.go", "readFDSelect"},
+	{"gtab.readScriptList", "opentype/gtab/scriptlist.go", "readScriptList"},
+	{"gtab.readScriptTable", "opentype/gtab/scriptlist.go", "ScriptListInfo.readScriptTable"},
+	{"gtab.readLangSysTable", "opentype/gtab/scriptlist.go", "readLangSysTable"},
+	{"gtab.readFeatureList", "opentype/gtab/featurelist.go", "readFeatureList"},
+	{"gtab.readLookupList", "opentype/gtab/lookup.go", "readLookupList"},
+	{"gtab.readExtensionSubtable", "opentype/gtab/lookup.go", "readExtensionSubtable"},
+	{"gtab.readGsubSubtable", "opentype/gtab/gsub.go", "readGsubSubtable"},
+	{"gtab.readGsub1_1", "opentype/gtab/gsub.go", "readGsub1_1"},
+	{"gtab.readGsub1_2", "opentype/gtab/gsub.go", "readGsub1_2"},
+	{"gtab.readGsub2_1", "opentype/gtab/gsub.go", "readGsub2_1"},
+	{"gtab.readGsub3_1", "opentype/gtab/gsub.go", "readGsub3_1"},
+	{"gtab.readGsub4_1", "opentype/gtab/gsub.go", "readGsub4_1"},
+	{"gtab.readGsub8_1", "opentype/gtab/gsub.go", "readGsub8_1"},
+	{"gtab.readNested", "opentype/gtab/nested.go", "readNested"},
+	{"gtab.readSeqContext1", "opentype/gtab/nested.go", "readSeqContext1"},
+	{"gtab.readSeqContext2", "opentype/gtab/nested.go", "readSeqContext2"},
+	{"gtab.readSeqContext3", "opentype/gtab/nested.go", "readSeqContext3"},
+	{"gtab.readChainedSeqContext1", "opentype/gtab/nested.go", "readChainedSeqContext1"},
+	{"gtab.readChainedSeqContext2", "opentype/gtab/nested.go", "readChainedSeqContext2"},
+	{"gtab.readChainedSeqContext3", "opentype/gtab/nested.go", "readChainedSeqContext3"},
+	{"gtab.readGposSubtable", "opentype/gtab/gpos.go", "readGposSubtable"},
+	{"gtab.readGpos1_1", "opentype/gtab/gpos.go", "readGpos1_1"},
+	{"gtab.readGpos1_2", "opentype/gtab/gpos.go", "readGpos1_2"},
+	{"gtab.readGpos2_1", "opentype/gtab/gpos.go", "readGpos2_1"},
+	{"gtab.readGpos2_2", "opentype/gtab/gpos.go", "readGpos2_2"},
+	{"gtab.readGpos3_1", "opentype/gtab/gpos.go", "readGpos3_1"},
+	{"anchor.Read", "opentype/anchor/anchor.go", "Read"},
+	{"markarray.Read", "opentype/markarray/markarray.go", "Read"},
 }
 
 type tieSite struct {
@@ -60,6 +94,16 @@ type tieSite struct {
 	Guards []string `json:"guards"`
 	Class  string   `json:"class"`
 	Model  string   `json:"model"` // checked operation of the Lean model standing for this site
+}
+
+// totalAllUnmapped: no entry of the expectation names a model operation (skeleton only).
+func totalAllUnmapped(exp []tieSite) bool {
+	for _, e := range exp {
+		if strings.TrimSpace(e.Model) != "" {
+			return false
+		}
+	}
+	return true
 }
 
 func sameStrings(a, b []string) bool {
@@ -205,6 +249,12 @@ func genTotal() {
 			if len(unmapped) > 0 {
 				fact["without_model_operation"] = unmapped
 			}
+		}
+		if err == nil && totalAllUnmapped(exp) {
+			// no model operation named for ANY site: the checked-index model does not exist yet; the
+			// inventory is recorded, but the function is not part of the tie (V line total.sites)
+			facts["sites-pending."+f.name] = fact
+			continue
 		}
 		facts["sites."+f.name] = fact
 	}
